@@ -196,6 +196,9 @@ func Eq(a, b *Term) *Term {
 				return Eq(BV2Int(q, false), BV2Int(p, false))
 			}
 		}
+		if a.op == "int2bv" && b.op == "int2bv" {
+			return Eq(BV2Int(a, false), BV2Int(b, false))
+		}
 	}
 	if (a.w == SortInt) != (b.w == SortInt) {
 		a, b = coerceInt(a), coerceInt(b)
@@ -547,6 +550,12 @@ func IArith(op string, a, b *Term) *Term {
 		if a == b {
 			return mk("const", w, "", big.NewInt(0))
 		}
+		if w == SortInt {
+			// x - (x div c)*c  ->  x mod c
+			if f, c, ok := mulConst(b); ok && c.Sign() > 0 && f.op == "div" && f.args[0] == a && f.args[1].IsConst() && f.args[1].c.Cmp(c) == 0 {
+				return IArith("mod", a, IntBig(c))
+			}
+		}
 		if w == SortInt && isZero(a) {
 			// 0 - x*c  ->  x*(-c)
 			if x, c, ok := mulConst(b); ok {
@@ -580,6 +589,12 @@ func IArith(op string, a, b *Term) *Term {
 				// -d <= a < 0: a mod d = a + d
 				return IArith("+", a, b)
 			}
+			// (x mod a) mod b with b | a  ->  x mod b
+			if a.op == "mod" && a.args[1].IsConst() && a.args[1].c.Sign() > 0 {
+				if _, m := new(big.Int).QuoRem(a.args[1].c, b.c, new(big.Int)); m.Sign() == 0 {
+					return IArith("mod", a.args[0], b)
+				}
+			}
 			// (A + r) mod d with d | A and 0 <= r < d  ->  r
 			if _, r, ok := splitMultiple(a, b.c); ok {
 				return r
@@ -601,6 +616,12 @@ func IArith(op string, a, b *Term) *Term {
 			}
 			if q, ok := exactDiv(a, b.c, 0); ok {
 				return q
+			}
+			// (x mod a) div b with b | a  ->  (x div b) mod (a/b)
+			if a.op == "mod" && a.args[1].IsConst() && a.args[1].c.Sign() > 0 {
+				if q, m := new(big.Int).QuoRem(a.args[1].c, b.c, new(big.Int)); m.Sign() == 0 && q.Cmp(big.NewInt(1)) > 0 {
+					return IArith("mod", IArith("div", a.args[0], b), IntBig(q))
+				}
 			}
 			// (A + r) div d with d | A and 0 <= r < d  ->  A/d
 			if q, _, ok := splitMultiple(a, b.c); ok {
